@@ -113,12 +113,16 @@ Proof.
   - destruct (imb_of imb (fst r)); [|destruct ku]; cbn; rewrite ?Eb; reflexivity.
 Qed.
 
-(* the engine-faithful variant coincides with the manual's as soon as every datapoint of the operand has a partner *)
-Lemma check_impl_eq_spec op imb ec el inv :
+(* the engine follows the manual *)
+Lemma check_impl_eq_spec op imb ec el inv : d_check_impl op imb ec el inv = d_check op imb ec el inv.
+Proof. reflexivity. Qed.
+
+(* the behaviour before the repair coincided with the manual's only when every datapoint of the operand has a partner *)
+Lemma check_before_fix_eq_spec op imb ec el inv :
   (forall r, In r (d_rows op) -> imb_of imb (fst r) <> None) ->
-  d_check_impl op imb ec el inv = d_check op imb ec el inv.
+  d_check_before_fix op imb ec el inv = d_check op imb ec el inv.
 Proof.
-  intros Hm. unfold d_check_impl, d_check, d_check_gen. destruct (d_ms op) as [|m [|m' t]]; try reflexivity.
+  intros Hm. unfold d_check_before_fix, d_check, d_check_gen. destruct (d_ms op) as [|m [|m' t]]; try reflexivity.
   destruct (match imb with Some _ => _ | None => false end); [reflexivity|]. f_equal. f_equal.
   revert Hm. induction (d_rows op) as [|r t IH]; intros Hm; [reflexivity|].
   change (flat_map ?f (r :: t)) with (f r ++ flat_map f t).
